@@ -194,6 +194,78 @@ fn console_vxw_c11() {
                 "got": {"failed_authorization_summary": dump(&summary), "problems": problems}, "want": "one occurrence per denial under each distinct user / process / command line / destination"}));
         }
     }
+    // ---- callers whose identity differs ONLY in the letter case of one attribute (user Alice / alice / ALICE, /opt/Tools/fetch vs
+    //      /opt/tools/fetch, `fetch -H ..` vs `fetch -h ..`) are different callers: "each such denial adds exactly one occurrence, under
+    //      the caller's user, process, command line and destination" - every one of them gets its own occurrences, with its own
+    //      user / process / command line exactly as it is, and its own count
+    {
+        let mk = |user: &str, uid: u64, path: &str, cmd: &str| {
+            let mut c = vx_claims(false);
+            c.userName = user.to_string();
+            c.userId = uid;
+            c.processFullPath = std::path::PathBuf::from(path);
+            c.processName = std::ffi::OsString::from(path.rsplit('/').next().unwrap_or("tool"));
+            c.processCmdLine = cmd.to_string();
+            c
+        };
+        let alice = mk("alice", 1000, "/usr/bin/tool", "tool --x");
+        let alice_cap = mk("Alice", 1002, "/usr/bin/tool", "tool --x");
+        let alice_upper = mk("ALICE", 1003, "/usr/bin/tool", "tool --x");
+        let fetch_lower_dir = mk("svc", 1004, "/opt/tools/fetch", "fetch -H Metadata:true http://169.254.169.254/metadata/instance");
+        let fetch_upper_dir = mk("svc", 1004, "/opt/Tools/fetch", "fetch -H Metadata:true http://169.254.169.254/metadata/instance");
+        let fetch_small_h = mk("svc", 1004, "/opt/tools/fetch", "fetch -h Metadata:true http://169.254.169.254/metadata/instance");
+        let fetch_exe_upper = mk("svc", 1004, "/opt/tools/FETCH", "fetch -H Metadata:true http://169.254.169.254/metadata/instance");
+        const IMDS: (&str, u16) = ("169.254.169.254", 80);
+        const WS: (&str, u16) = ("168.63.129.16", 80);
+        // (description, mode, history of (who, caller, destination, how many in a row))
+        let histories: Vec<(&str, &str, Vec<(&str, &Claims, (&str, u16), u64)>)> = vec![
+            ("user names alice / Alice / ALICE", "audit", vec![("alice", &alice, IMDS, 2), ("Alice", &alice_cap, IMDS, 1), ("alice", &alice, IMDS, 1), ("ALICE", &alice_upper, IMDS, 3)]),
+            ("user names Alice first, then alice", "enforce", vec![("Alice", &alice_cap, IMDS, 1), ("alice", &alice, IMDS, 2)]),
+            ("executables /opt/Tools/fetch, /opt/tools/fetch, /opt/tools/FETCH", "enforce", vec![("/opt/Tools/fetch", &fetch_upper_dir, IMDS, 1), ("/opt/tools/fetch", &fetch_lower_dir, IMDS, 2), ("/opt/Tools/fetch", &fetch_upper_dir, IMDS, 1), ("/opt/tools/FETCH", &fetch_exe_upper, IMDS, 1)]),
+            ("command lines `fetch -H ..` and `fetch -h ..`", "audit", vec![("fetch -H", &fetch_lower_dir, IMDS, 2), ("fetch -h", &fetch_small_h, IMDS, 1)]),
+            ("command lines `fetch -h ..` first, then `fetch -H ..`", "enforce", vec![("fetch -h", &fetch_small_h, WS, 1), ("fetch -H", &fetch_lower_dir, WS, 3), ("fetch -h", &fetch_small_h, WS, 1)]),
+            ("seven callers differing in the letter case of one attribute each, two destinations", "audit", vec![
+                ("alice", &alice, IMDS, 1), ("/opt/tools/fetch -H", &fetch_lower_dir, IMDS, 1), ("Alice", &alice_cap, WS, 2), ("/opt/Tools/fetch -H", &fetch_upper_dir, IMDS, 2), ("ALICE", &alice_upper, IMDS, 1),
+                ("/opt/tools/fetch -h", &fetch_small_h, IMDS, 3), ("alice->WireServer", &alice, WS, 1), ("/opt/tools/FETCH -H", &fetch_exe_upper, WS, 1), ("Alice", &alice_cap, WS, 1), ("/opt/tools/fetch -H", &fetch_lower_dir, IMDS, 1),
+            ]),
+        ];
+        for (what, mode, plan) in histories.iter() {
+            n += 1;
+            h.set_rules(&|| Some(vx_rules(mode, "deny", 3, "x")));
+            h.clear_summary();
+            let mut want: Vec<(&str, &Claims, (&str, u16), u64)> = Vec::new();
+            let mut all = 0u64;
+            let mut statuses: Vec<u16> = Vec::new();
+            for (who, c, dest, cnt) in plan.iter() {
+                for _ in 0..*cnt {
+                    let attr = Attribution { claims: Some((*c).clone()), destination: Some((dest.0.parse().unwrap(), dest.1)), upstream: true, real_new: false };
+                    let (r, _b, _q) = h.one(&h.ps, &attr, vx_request_bytes("GET", "/metadata/instance?api-version=2021-02-01", &hdrs(dest.0), &ReqBody::None), false);
+                    statuses.push(vx_status(&r));
+                    all += 1;
+                }
+                match want.iter_mut().find(|(w, _, d, _)| w == who && d == dest) {
+                    Some(e) => e.3 += *cnt,
+                    None => want.push((*who, *c, *dest, *cnt)),
+                }
+            }
+            let summary = h.failed_summary();
+            let mut problems: Vec<String> = Vec::new();
+            for (who, c, dest, w) in want.iter() {
+                let got = occurrences(&summary, c, dest.0, dest.1);
+                if got != *w {
+                    problems.push(format!("{} (user '{}', process '{}', command line '{}' -> {}:{}): {} occurrences under exactly this caller, want {}", who, c.userName, c.processFullPath.to_string_lossy(), c.processCmdLine, dest.0, dest.1, got, w));
+                }
+            }
+            let total: u64 = summary.iter().map(|s| s.count).sum();
+            if total != all { problems.push(format!("{} occurrences in total, want {}", total, all)); }
+            if *mode == "enforce" && statuses.iter().any(|s| *s != 403) { problems.push(format!("client statuses {:?}, want 403 for every denied request", statuses)); }
+            if !problems.is_empty() {
+                vx_fail(serde_json::json!({"property": "C11", "input": {"what": format!("callers differing only in letter case: {}", what), "mode": mode, "defaultAccess": "deny",
+                    "history": plan.iter().map(|(_, c, d, k)| format!("user '{}' process '{}' command line '{}' -> {}:{} x{}", c.userName, c.processFullPath.to_string_lossy(), c.processCmdLine, d.0, d.1, k)).collect::<Vec<_>>()},
+                    "got": {"failed_authorization_summary": dump(&summary), "problems": problems}, "want": "one occurrence per denial under each distinct caller: user, process and command line exactly as the caller's (letter case included), with its own count"}));
+            }
+        }
+    }
     drop(h);
 
     // ---- many concurrent connections, all denied in enforce mode: every denial is recorded
